@@ -194,6 +194,10 @@ def check(ctx, case):
 
 
 def finalize(ctx):
+    if ctx.tier == "thorough" and ctx.shard == 0:  # ambient contracts while the repository's own pinned tests run
+        from vf import ambient
+
+        ambient.run_tests(ctx, "C07", ["tests/inference/test_peak_finding.py"], ["find_global_peaks_rough"])
     ctx.require("maps_checked", 50)
     ctx.require("refined_points", 20)
     ctx.require("solo_calls", 10)
